@@ -271,11 +271,16 @@ CapIntersects(c, ec, o, eo) ==
     ELSE IF Ang12(ec) >= 0 /\ Ang12(eo) >= 0 /\ DistAng12(c, o) >= 0 THEN
         Tri(Ang12(ec) + Ang12(eo) - DistAng12(c, o), FALSE)
     ELSE "U"
+\* antipodal centres and radii summing to more than pi: the caps overlap, but the code's
+\* chord-angle sum is clamped at pi and compared with a centre distance of exactly pi
+CapClampCase(c, ec, o, eo) == c = VNeg(o) /\ ec > 0 /\ eo >= 0 /\ ec + eo > 32
 CapInteriorIntersects(c, ec, o, eo) ==
     IF ec <= 0 \/ eo = -8 THEN "F"
     ELSE IF c = o THEN "T"
-    \* antipodal centres and radii summing to >= pi: the chord-angle sum is clamped at pi by design
-    ELSE IF DistAng12(c, o) = 12 /\ ec + eo >= 32 THEN (IF ec + eo = 32 /\ VAxis(c) THEN "F" ELSE "U")
+    ELSE IF ec = 32 THEN (IF c = VNeg(o) /\ ~VAxis(c) THEN "U" ELSE "T")   \* the interior of the full cap is everything
+    ELSE IF DistAng12(c, o) = 12 /\ ec + eo >= 32 THEN
+        (IF ec + eo > 32 THEN (IF VAxis(c) THEN "T" ELSE "U")     \* float distance may fall below 4 off-axis
+         ELSE IF VAxis(c) THEN "F" ELSE "U")                      \* radii sum to exactly pi: they only touch
     ELSE IF eo = 0 THEN CapInteriorContainsPt(c, ec, o)
     ELSE IF ec + eo >= 32 THEN "T"
     ELSE IF Ang12(ec) >= 0 /\ Ang12(eo) >= 0 /\ DistAng12(c, o) >= 0 THEN
